@@ -32,7 +32,8 @@ class Base(str):
         return str(self) < str(other)
 
     def __deepcopy__(self, memo: dict[str, Any] | None = None) -> Self:
-        return self.__class__(str(self))
+        # A copy must not re-validate: objects created with allow_invalid=True are copyable, too.
+        return self.__class__(str(self), allow_invalid=True)
 
     @property
     def compact(self) -> str:
